@@ -50,6 +50,7 @@ BASE_INVENTORY_SCHEMA = {
         },
         "allocation_ratio": {
             "type": "number",
+            "minimum": -db_const.SQL_SP_FLOAT_MAX,
             "maximum": db_const.SQL_SP_FLOAT_MAX
         },
     },
